@@ -75,7 +75,12 @@ class _dtype_value_context:
         )
 
     def __exit__(self, *args):
-        self.__class__._set_value(self._orig_float_value, self._orig_double_value, self._orig_half_value)
+        # Restore the fields directly: _set_value skips None, so a field whose previous value was None
+        # (e.g. the half-precision default) would otherwise keep the value set inside the block.
+        cls = self.__class__
+        cls._global_float_value = self._orig_float_value
+        cls._global_double_value = self._orig_double_value
+        cls._global_half_value = self._orig_half_value
         return False
 
 
